@@ -42,6 +42,15 @@ def big_dim(rng):
             return n
 
 
+# generators given in very small / very large units: H = 10^e * G, duration t0 / 10^e, so that H t stays of order one
+UEXPS = [-30, -20, -14, -11, -9, -6, -3, 3, 6, 9, 11, 14, 20, 30]
+UEXPS_QUICK = [-20, -11, -6, 3, 9, 14]
+# nearly Hermitian generators: Hermitian plus a non-Hermitian part of relative size eps (in the spectral norm)
+EPS_NEAR = [1e-2, 1e-3, 1e-4, 1e-5, 1e-6, 1e-7, 1e-9]
+EPS_LOSS = [1.0, 0.3, 1e-2, 1e-4, 1e-6]          # `lossy`: H0 - i eps K with K >= 0 (strong and weak loss)
+UNIT_HKINDS = ["nonherm", "nonherm", "nonherm", "lossy", "lossy", "nearherm", "herm", "herm", "lowertri", "cdiag", "tridiag", "upper"]
+
+
 KF_ODE0 = "C20-ode-zero-duration"
 KF_EIGSH = "C20-eigsh-dim>=4"
 KF_REAL = "C20-ode-real-psi"
@@ -73,12 +82,25 @@ def shapes_of(n, order, rs):
 STRUCTURED = ["lower", "lowertri", "uppertri", "upper", "tridiag", "cdiag", "diag", "single", "blockdiag", "realsym"]
 
 
-def build_h(hkind, n, rs, hnorm, rows=None, cols=None):
+def _unit_norm(a):
+    nrm = np.linalg.norm(a, 2)
+    return a / nrm if nrm > 0 else a
+
+
+def build_h(hkind, n, rs, hnorm, rows=None, cols=None, eps=None):
     rows = n if rows is None else rows
     cols = n if cols is None else cols
     a = rs.standard_normal((rows, cols)) + 1j * rs.standard_normal((rows, cols))
     if rows == cols:
-        if hkind == "herm":
+        if hkind == "nearherm":
+            # Hermitian plus a generic (non-Hermitian) part of relative size eps
+            b = rs.standard_normal((rows, cols)) + 1j * rs.standard_normal((rows, cols))
+            a = _unit_norm((a + a.conj().T) / 2) + eps * _unit_norm(b)
+        elif hkind == "lossy":
+            # Hermitian minus i eps K with K positive semidefinite (loss: the norm decays forward, grows backward)
+            b = rs.standard_normal((rows, cols)) + 1j * rs.standard_normal((rows, cols))
+            a = _unit_norm((a + a.conj().T) / 2) - 1j * eps * _unit_norm(b @ b.conj().T)
+        elif hkind == "herm":
             a = (a + a.conj().T) / 2
         elif hkind == "realsym":
             a = np.real(a + a.conj().T) / 2
@@ -448,6 +470,14 @@ class C20(Prop):
             "real symmetric / banded / block diagonal / triangular / nilpotent / complex diagonal, psi complex of order 1/2/3, all layouts; "
             "reference there: for Hermitian H the eigendecomposition certified by its residual and unitarity, for non-Hermitian H the numpy "
             "Taylor value cross-checked against SciPy's Pade expm (self-checks of the harness); "
+            "UNITS (9 modes x 2 directions x 6 exponents, thorough 14 exponents x 3): H = 10^e G with e in {-30,-20,-14,-11,-9,-6,-3,3,6,9,11,14,20,30} and "
+            "t = t0 / 10^e, t0 in {0.01, 0.7, 1.5, -0.4}, |G|_2 |t0| in {0.5, 1.5, 3}, G generic non-Hermitian (the exact result's norm differs "
+            "from |psi| by O(1)), lossy H0 - i eps K (K >= 0, eps in {1, 0.3, 1e-2, 1e-4, 1e-6}), nearly Hermitian, Hermitian, triangular, "
+            "nilpotent, complex diagonal, banded; dimension 1..8 (EIGSH <= 3; RK23 in large units: coupled problems of dimension >= 2, see "
+            "_gen_units); NEARLY HERMITIAN at the natural scale (9 modes x 2 directions x 3 values of eps, thorough 7 x 3): Hermitian plus a "
+            "generic or lossy part of relative size eps in {1e-2,...,1e-7,1e-9}, |H|_2 |t| in {0.5, 3, 30, 300} for the exponential kernels, "
+            "<= 3 for RK23 / BDF, <= 10 for RK45 / DOP853; both families are judged like every other case against the Taylor reference of "
+            "(sign i t H) with the same tolerances; "
             "fast_exp_action cases: every accepted mode string, "
             "unknown strings; malformed cases: non-square H or size mismatch (both sides must reject). "
             "non-trivial = dimension >= 2 and t > 0; distinct by case content. "
@@ -531,6 +561,17 @@ class C20(Prop):
             cases.append({"kind": "fea", "md": rng.choice(["fastest", "fastest", "chebyshev", "expm", "sparse", "none"]), "n": big_dim(rng), "t": t,
                           "forward": rng.random() < 0.5, "hkind": rng.choice(BIG_HKINDS), "hnorm": 1.5, "ht": rng.choice(BIG_HT),
                           "seed": rng.randrange(10 ** 6)})
+        # generators in very small / very large UNITS (H = 10^e G, t = t0 / 10^e: H t of order one) and NEARLY HERMITIAN
+        # generators (Hermitian plus a relatively small non-Hermitian part), in every mode
+        bs = budget_scale if stream != "main" else 1
+        for rep in range(ctx.scale(1, 3) * bs):
+            for mode in MODES:
+                for forward in (True, False):
+                    for uexp in (UEXPS if thorough else UEXPS_QUICK):
+                        cases.append(self._gen_units(rng, mode, forward, uexp))
+                    eps_list = EPS_NEAR if thorough else rng.sample(EPS_NEAR, 3)
+                    for eps in eps_list:
+                        cases.append(self._gen_near(rng, mode, forward, eps))
         # fast_exp_action directly
         mds = ["fastest", "expm", "eigsh", "chebyshev", "sparse", "none", "bogus", "RK45", "EXPM", "", "Fastest"]
         for md in mds:
@@ -545,6 +586,44 @@ class C20(Prop):
                 cases.append({"kind": "bad", "mode": mode, "forward": rng.random() < 0.5, "hshape": list(hs), "shape": ps,
                               "t": rng.choice([0.05, 0.3]), "seed": rng.randrange(10 ** 6)})   # t > 0: an empty time span makes solve_ivp return before it looks at H
         return cases
+
+    @staticmethod
+    def _gen_units(rng, mode, forward, uexp):
+        """one time_evolve call with the generator given in other units: H = 10^uexp * G and t = t0 / 10^uexp with
+        |G|_2 * |t0| in {0.5, 1.5, 3}; G Hermitian, generic non-Hermitian, lossy (H0 - i eps K), nearly Hermitian or structured.
+        The exact result is the one of (G, t0): the norm of it differs from |psi| by O(1) for the non-Hermitian members."""
+        n = rng.choice([1, 2, 3]) if mode == "EIGSH" else rng.choice([1, 2, 3, 4, 5, 8])
+        hk = rng.choice(UNIT_HKINDS)
+        if mode == "RK23" and uexp > 0:
+            # SciPy's RK23 at its default tolerances loses accuracy (errors up to 3.5e-2) on DECOUPLED pure-decay components
+            # when H is in large units (its first step is then 1/|lambda| and the embedded error estimate nearly vanishes
+            # for some real negative h*lambda): coupled problems of dimension >= 2 only, where the stated tolerance holds
+            n = max(n, 2)
+            hk = rng.choice(["nonherm", "nonherm", "lossy", "nearherm", "herm"])
+        t0 = rng.choice([0.01, 0.7, 1.5, -0.4])
+        case = {"kind": "te", "mode": mode, "forward": forward, "n": n, "order": rng.choice([1, 2, 3]), "t0": t0, "uexp": uexp,
+                "t": t0 / 10.0 ** uexp, "hkind": hk, "hnorm": 1.5, "ht": rng.choice([0.5, 1.5, 1.5, 3.0]), "pdtype": "complex",
+                "seed": rng.randrange(10 ** 6)}
+        if hk == "lossy":
+            case["eps"] = rng.choice(EPS_LOSS)
+        if hk == "nearherm":
+            case["eps"] = rng.choice(EPS_NEAR)
+        return case
+
+    @staticmethod
+    def _gen_near(rng, mode, forward, eps):
+        """one time_evolve call with a nearly Hermitian generator at the natural scale: Hermitian plus a generic or a lossy
+        part of relative size eps; long durations (|H|_2 |t| up to 300, where eps |H| |t| becomes visible) in the exponential
+        modes, |H|_2 |t| <= 3 (RK45 / DOP853: <= 10) in the solve_ivp modes, where their tolerance is stated."""
+        n = rng.choice([1, 2, 3]) if mode == "EIGSH" else rng.choice([1, 2, 3, 4, 5, 8, 12])
+        if mode in ODE:
+            ht = rng.choice([0.5, 1.5, 3.0] + ([10.0] if mode in ("RK45", "DOP853") else []))
+        else:
+            ht = rng.choice([0.5, 3.0, 30.0, 300.0])
+        t0 = rng.choice([0.7, 2.0, 25.0, -0.4])
+        return {"kind": "te", "mode": mode, "forward": forward, "n": n, "order": rng.choice([1, 2, 3]), "t": t0,
+                "hkind": rng.choice(["nearherm", "lossy"]), "eps": eps, "hnorm": 1.5, "ht": ht, "pdtype": "complex",
+                "seed": rng.randrange(10 ** 6)}
 
     @staticmethod
     def _gen_big_te(rng, mode):
@@ -627,8 +706,15 @@ class C20(Prop):
                     c["large:mode:" + x["mode"]] += 1
                     c["large:|H||t|=%g" % x["ht"]] += 1
                     c["large:H:" + ("hermitian" if is_hermitian_kind(x["hkind"]) else "non-hermitian")] += 1
+                if "uexp" in x:
+                    c["units:H*1e%d" % x["uexp"]] += 1
+                    c["units:mode:" + x["mode"]] += 1
+                    c["units:H:" + x["hkind"]] += 1
+                elif "eps" in x:
+                    c["nearly-hermitian:eps=%g" % x["eps"]] += 1
+                    c["nearly-hermitian:|H||t|=%g" % x["ht"]] += 1
                 c["order:%d" % x["order"]] += 1
-                c["t:%g" % x["t"]] += 1
+                c["t:%g" % x.get("t0", x["t"])] += 1
                 c["H:" + x["hkind"]] += 1
                 c["psi:" + x["pdtype"]] += 1
                 c["dir:" + ("forward" if x["forward"] else "backward")] += 1
@@ -643,11 +729,14 @@ class C20(Prop):
             psi = build_psi("complex", case["shape"], rs)
             return h, psi, case["shape"]
         n = case["n"]
-        t = max(abs(st["t"]) for st in case["steps"]) if case["kind"] == "hist" else case["t"]
+        t = max(abs(st["t"]) for st in case["steps"]) if case["kind"] == "hist" else case.get("t0", case["t"])
+        kw = {"eps": case["eps"]} if "eps" in case else {}
         if "ht" in case and t != 0:
-            h = build_h(case["hkind"], n, rs, case["ht"] / abs(t))          # |H|_2 * |t| = ht
+            h = build_h(case["hkind"], n, rs, case["ht"] / abs(t), **kw)          # |H|_2 * |t| = ht
         else:
-            h = build_h(case["hkind"], n, rs, case["hnorm"] / max(abs(t), 1.0))
+            h = build_h(case["hkind"], n, rs, case["hnorm"] / max(abs(t), 1.0), **kw)
+        if "uexp" in case:
+            h = h * 10.0 ** case["uexp"]          # the same generator in other units; the duration is t0 / 10^uexp
         if case["kind"] == "fea":
             return h, build_psi("complex", [n], rs), [n]
         shape = shapes_of(n, case["order"], rs)
@@ -698,6 +787,7 @@ class C20(Prop):
         scale = max(np.linalg.norm(ref), np.linalg.norm(psi0))
         ob["err"] = float(np.linalg.norm(res - ref) / scale)
         ob["norm_dev"] = float(abs(np.linalg.norm(res) - np.linalg.norm(psi0)) / np.linalg.norm(psi0))
+        ob["norms"] = [float(np.linalg.norm(ref) / np.linalg.norm(psi0)), float(np.linalg.norm(res) / np.linalg.norm(psi0))]
         try:
             back = np.asarray(time_evolve(res, h, t, forward=not fw, mode=mode))
             if back.shape != psi0.shape:
@@ -1006,7 +1096,10 @@ class C20(Prop):
         if ob.get("shape") != ob["shape_in"]:
             return f"result shape {ob.get('shape')} is not psi's shape {ob['shape_in']}"
         if not (ob["err"] <= tol):
-            return f"result deviates from {arrow} psi: relative error {ob['err']:.3g} > {tol:g} (mode {mode})"
+            units = f", H given in units of 1e{case['uexp']} with t = {case['t']:g}" if "uexp" in case else ""
+            nrm = ob.get("norms", [float("nan")] * 2)
+            return (f"result deviates from {arrow} psi: relative error {ob['err']:.3g} > {tol:g} (mode {mode}{units}; |exact result| = "
+                    f"{nrm[0]:.4g} |psi|, |returned| = {nrm[1]:.4g} |psi|)")
         if "rt_exception" in ob:
             return f"round trip: the opposite direction raised / misshaped: {ob['rt_exception']}"
         if not (ob["rt_err"] <= 2 * tol):
